@@ -18,11 +18,13 @@ def infixOps : List (String × Nat) :=
 def prefixKeywords : List String := ["not", "let", "kindmatch", "scopematch", "statematch", "priority", "suppresses"]
 
 /-- prefix operators as the printer sees them (ppIsOperator): null denotation `ndPrefix` and either an
-    operator token (binding > 0 and a left denotation: + -) or one of the keywords —
+    operator token (binding > 0 and a left denotation: + -) or one of the keywords; plus `return` (with a
+    value; null denotation `ndReturn`), which ppNeedsBrackets treats specially —
     (node name, binding, has left denotation) -/
 def prefixOps : List (String × Nat × Bool) :=
-  (astNodeMap.filter fun e => e.2.2.2.1 = "ndPrefix" &&
-      ((decide (e.2.2.1 > 0) && e.2.2.2.2 != "nil") || prefixKeywords.contains e.2.1)).map
+  (astNodeMap.filter fun e => (e.2.2.2.1 = "ndPrefix" &&
+      ((decide (e.2.2.1 > 0) && e.2.2.2.2 != "nil") || prefixKeywords.contains e.2.1)) ||
+      (e.2.2.2.1 = "ndReturn" && e.2.1 = "return")).map
     fun e => (e.2.1, e.2.2.1, e.2.2.2.2 != "nil")
 
 def infixIdx (name : String) : Option Nat :=
@@ -32,6 +34,7 @@ def prefixIdx (name : String) : Option Nat :=
   let i := prefixOps.findIdx (·.1 = name)
   if i < prefixOps.length then some i else none
 
+def iReturn : Nat := prefixOps.findIdx (·.1 = "return")
 def iTimes : Nat := infixOps.findIdx (·.1 = "times")
 def iDiv : Nat := infixOps.findIdx (·.1 = "div")
 
@@ -40,20 +43,29 @@ def realPowers : Powers where
   bp k := ((infixOps[k]?).map (·.2)).getD 1
   pb k := ((prefixOps[k]?).map (·.2.1)).getD 1
   off := prefixOffset
+  stmt k := ((prefixOps[k]?).map (·.1)).getD "" = "return"
 
 /-- the exception of ppNeedsBrackets: a product or quotient under a product is never parenthesised -/
 def realExc (K k : Nat) : Bool := decide (K = iTimes) && (decide (k = iTimes) || decide (k = iDiv))
 
-/-- what ppNeedsBrackets reads of a node, for an operator head of the real table -/
-def bnOf : Head → BN
-  | .atom => ⟨"identifier", 0, false, 0⟩
-  | .bin k => ⟨((infixOps[k]?).map (·.1)).getD "", realPowers.bp k, true, 2⟩
-  | .pre k => ⟨((prefixOps[k]?).map (·.1)).getD "", realPowers.pb k, ((prefixOps[k]?).map (·.2.2)).getD false, 1⟩
+/-- what ppNeedsBrackets reads of a node, for an operator head of the real table; `pure` = the value of the
+    sub-tree predicate ppIsProductChain for that node -/
+def bnOf (h : Head) (pure : Bool := true) : BN :=
+  match h with
+  | .atom => ⟨"identifier", 0, false, 0, fun _ => pure⟩
+  | .bin k => ⟨((infixOps[k]?).map (·.1)).getD "", realPowers.bp k, true, 2, fun _ => pure⟩
+  | .pre k => ⟨((prefixOps[k]?).map (·.1)).getD "", realPowers.pb k, ((prefixOps[k]?).map (·.2.2)).getD false, 1,
+      fun _ => pure⟩
 
-/-- the same head as a node of the full printer model -/
-def nodeOf (h : Head) : Ecal.Parse.Node :=
+/-- the same head as a node of the full printer model; for `pure = false` an infix head gets a left operand
+    `a % b` of its own binding (its product chain is then impure), otherwise its operands are absent -/
+def nodeOf (h : Head) (pure : Bool := true) : Ecal.Parse.Node :=
   let b := bnOf h
-  Ecal.Parse.Node.mk b.name none b.binding .none (if b.hasLd then .infix else .none) (List.replicate b.nch none) []
+  let kids : List (Option Ecal.Parse.Node) :=
+    if !pure && b.nch = 2 then
+      [some (Ecal.Parse.Node.mk "modint" none b.binding .none .infix [none, none] []), none]
+    else List.replicate b.nch none
+  Ecal.Parse.Node.mk b.name none b.binding .none (if b.hasLd then .infix else .none) kids []
 
 /-- all heads of the real table -/
 def allHeads : List Head :=
@@ -96,20 +108,30 @@ partial def toExpr (n : Node) (atoms : Array (List Nat)) : Option (Expr × Array
       | none => none
     | _ => none
 
-/-- text of a token list, with the operator spellings of the full printer's templates -/
-def render (atoms : Array (List Nat)) (ts : List Tok) : List Nat :=
-  ts.flatMap fun t =>
-    match t with
-    | .atom n => atoms.getD n []
-    | .lp => Ecal.Print.s "("
-    | .rp => Ecal.Print.s ")"
-    | .op k =>
-      match Ecal.Print.tmpl (((infixOps[k]?).map (·.1)).getD "" ++ "_2") with
+/-- sink attributes are indented by ppPostProcessing when their parent is not in its no-initial-indent
+    list — i.e. under every operator: `-    suppresses a` -/
+def sinkAttrs : List String := ["kindmatch", "scopematch", "statematch", "priority", "suppresses"]
+
+/-- text of an operator tree with the parentheses the printer decided, with the operator spellings of the
+    full printer's templates; `parent` = name of the enclosing operator (none at the root). A sink attribute
+    is indented unless its parent is in ppPostProcessing's no-initial-indent list. -/
+def renderP (atoms : Array (List Nat)) : Option String → PExpr → List Nat
+  | _, .atom n => atoms.getD n []
+  | parent, .paren x => Ecal.Print.s "(" ++ renderP atoms parent x ++ Ecal.Print.s ")"
+  | _, .bin k l r =>
+    let name := ((infixOps[k]?).map (·.1)).getD ""
+    let sym := match Ecal.Print.tmpl (name ++ "_2") with
       | some [.inr 1, .inl sym, .inr 2] => Ecal.Print.s sym
       | _ => Ecal.Print.s "<?>"
-    | .pre k =>
-      match Ecal.Print.tmpl (((prefixOps[k]?).map (·.1)).getD "" ++ "_1") with
+    renderP atoms (some name) l ++ sym ++ renderP atoms (some name) r
+  | parent, .pre k x =>
+    let name := ((prefixOps[k]?).map (·.1)).getD ""
+    let sym := match Ecal.Print.tmpl (name ++ "_1") with
       | some [.inl sym, .inr 1] => Ecal.Print.s sym
       | _ => Ecal.Print.s "<?>"
+    let indent := match parent with
+      | some p => if sinkAttrs.contains name && !Ecal.Print.noInitialIndentParents.contains p then Ecal.Print.s "    " else []
+      | none => []
+    indent ++ sym ++ renderP atoms (some name) x
 
 end Ecal.C08
